@@ -39,6 +39,10 @@ def gen(rng, index, tier):
             sch = common.family_scheme(rng, "unifying")
     else:
         sch = lib.gen_scheme(rng, family=rng.choice(["preset", "grid", "grid", "preset_mult", "zeroheavy", "fine", "fine", "cheap_ties", "large", "large"]))
+    if rng.random() < 0.08 and not meta.get("big"):
+        # penalties that are not exactly representable in binary: the float bookkeeping of the local search drifts by a
+        # few ulps, so only the predicate is evaluated (reported score within 1e-6 of a grid point), not the model run
+        sch = lib.gen_scheme(rng, family="decimal")
     return {"kind": "run", "dataset": raw, "scheme": sch, "config": config, "amo": rng.random() < 0.4, "meta": meta}
 
 
@@ -85,6 +89,10 @@ def ops(case, out):
     if "err" in out or "rankings" not in out:
         return []
     S = lib.scheme_tree(case["scheme"])
+    if case["scheme"]["family"] == "decimal":
+        sb = out.get("score_before_tol")
+        return [("bio.departures", [out["obs"], out["starters_cons"]]),
+                ("c09.holds", [S, [out["obs"], [out["rankings"], [sb if isinstance(sb, int) else -1, out["starters_cons"]]]]])]
     res = [("bio.run", [S, [out["obs"], [out["starters_cons"], [int(case["amo"]), [lib.tau(case["scheme"]), FUEL]]]]])]
     if isinstance(out["score_before"], int):
         res.append(("c09.holds", [S, [out["obs"], [out["rankings"], [out["score_before"], out["starters_cons"]]]]]))
@@ -107,6 +115,11 @@ def judge(case, out, answers):
             return {"agree": True, "holds": True, "diff": "", "nontrivial": False, "tags": tags + ["refused-by-starter"]}
         return {"agree": False, "holds": False, "diff": "run failed: %s" % out.get("run_err"), "nontrivial": False,
                 "tags": tags + ["run-error"]}
+    if case["scheme"]["family"] == "decimal":
+        ok_dep = out["dep"] == "unavailable" or out["dep"] == answers[0]
+        return {"agree": ok_dep, "holds": bool(answers[1]), "nontrivial": True, "tags": tags + ["predicate-only"],
+                "diff": ("" if ok_dep else "departure rankings differ") +
+                        ("" if answers[1] else "; predicate false: reported %s, rankings %s" % (out.get("score_before_tol"), out["rankings"]))}
     mr, ms, mres, mdeps = answers[0]
     diff = []
     if out["dep"] == "unavailable":
